@@ -222,6 +222,7 @@ func TestC05(t *testing.T) {
 			"oracle after every sync: stored-log invariants (C06) and monotone checkpoints; at every settle and at the end: every entered client equals refmodel(stored log), and the server's own rebuild (latest snapshot + later operations) equals it too; "+
 			"non-trivial = >=2 clients pushed operations on the same key and >=1 client joined a key that already had stored operations; distinct = hash of the action sequence")
 	col.Assume("MongoDB and the MQTT broker are replaced by the in-process wire-protocol fakes of DESIGN.md §3.3 (the real mongo-driver and paho clients talk to them)")
+	col.Assume(deploymentNote)
 	checkProp(t, "C05", col, func(c *caseCtx) {
 		rt := c.rt
 		nk := rapid.IntRange(1, 3).Draw(rt, "keys")
@@ -230,12 +231,14 @@ func TestC05(t *testing.T) {
 			kinds = append(kinds, kindFromDraw(rt))
 		}
 		idseed := rapid.Uint64Range(1, 1<<40).Draw(rt, "idseed")
+		dep := drawDeployment(rt)
 		w, err := newL1World(idseed, kinds)
 		if err != nil {
 			c.failf("HARNESS-ERROR: cannot start the environment: %v", err)
 		}
 		defer w.close()
-		c.j.Header = map[string]interface{}{"kinds": kinds, "id_seed": idseed}
+		w.labels[dep] = true
+		c.j.Header = map[string]interface{}{"kinds": kinds, "id_seed": idseed, "deployment": dep}
 		maxClients := 4
 		if thorough() {
 			maxClients = 6
@@ -262,8 +265,8 @@ func TestC05(t *testing.T) {
 		if err := w.applyL1(fin); err != nil {
 			c.failf("final settle: %v", err)
 		}
-		if u := w.env.Mongo.UnknownCommands(); len(u) > 0 {
-			c.failf("HARNESS-ERROR: the fake MongoDB received commands it does not implement: %v", u)
+		if err := w.infraProblem(); err != nil {
+			c.failf("%v", err)
 		}
 		pushers := map[string]map[string]bool{}
 		for duid, ops := range w.accepted {
